@@ -9,6 +9,7 @@ HERE = os.path.dirname(os.path.abspath(__file__))
 VERIF = os.path.dirname(HERE)
 sys.path.insert(0, HERE)
 import tlc
+COVERAGE = os.environ.get("VERIF_COVERAGE") == "1"      # -coverage 1 slows heavy models by orders of magnitude: opt-in (tools/vacuity.py)
 
 REPO = os.environ.get('VERIF_REPO', '/repo')
 GUARD = 'BDCHT_CRYSP_VERIF'
@@ -141,13 +142,13 @@ class Ctx:
         """Run a bounded exhaustive TLC model of the SPECIFICATION.  A violated invariant there is a
         machinery failure (the spec is wrong), not a property violation of the code."""
         res = tlc.run(os.path.join(tlc.SPEC, module), cfg=os.path.join(tlc.SPEC, cfg) if cfg else None, env=env,
-                      timeout=timeout, workers=workers, extra=list(extra) + ['-coverage', '1'])
+                      timeout=timeout, workers=workers, extra=list(extra) + (['-coverage', '1'] if COVERAGE else []))
         what = what or module
         if res['timed_out'] or res['errors'] or res['generated'] is None or res['queue'] != 0:
             raise Machinery('model check %s failed: %s\n%s' % (what, res['errors'][:3], res['stdout'][-3000:]))
         self.add_tlc(res, 'MC ' + what)
         never = sorted(a for a, (d, g) in res['actions'].items() if g == 0 and a not in self.MAY_BE_DISABLED.get(os.path.basename(cfg or module), ()))
-        if never:                                  # vacuity: an action of the model that no behaviour ever took
+        if never and COVERAGE:                      # vacuity: an action of the model that no behaviour ever took
             raise Machinery('model check %s is vacuous: action(s) %s never taken' % (what, never))
         self.mc_runs.append(dict(model=what, distinct=res['distinct'], generated=res['generated'], wall=round(res['wall'], 1),
                                  actions={a: v[1] for a, v in res['actions'].items()}))
